@@ -207,6 +207,10 @@ DECOYS = [
     '    error!(r"raw string literal");\n',
     '    let _t = format!("{} // not a comment", count);\n',
     '    info ! ("spaced bang");\n',
+    # comments that merely begin like a directive (a directive is the whole comment, nothing more)
+    '    // breadlog:ignore was dropped from the next line on purpose\n',
+    '    // breadlog:no-kvp-here-please\n',
+    '    /* breadlog:ignored */\n',
 ]
 
 PAD_UNI = "既定値を返す日本語のコメントéßжΩ𝔘😀ñ"
